@@ -67,6 +67,8 @@ def units(tier, seed):
     for f in frames:
         u.append({"kind": "keys", "src": f})
     u.append({"kind": "task_spelling"})
+    u.append({"kind": "task_lists"})
+    u.append({"kind": "frame_distinct"})
     return u
 
 
@@ -104,6 +106,17 @@ def run_unit(unit, acc):
     elif unit["kind"] == "task_spelling":
         for m in EvaluationTask:
             check_case({"kind": "task_spelling", "task": m.name}, acc)
+    elif unit["kind"] == "task_lists":
+        names = [m.name for m in EvaluationTask]
+        for a in names:
+            for b in names:
+                check_case(dict(kind="task_lists", tasks=[a, b]), acc)
+        check_case(dict(kind="task_lists", tasks=list(reversed(names))), acc)
+        check_case(dict(kind="task_lists", tasks=names[3:] + names[:3]), acc)
+        check_case(dict(kind="task_lists", tasks=[]), acc)
+    elif unit["kind"] == "frame_distinct":
+        for a in FrameID:
+            check_case(dict(kind="frame_distinct", a=a.name), acc)
 
 
 def _outcome(fn, arg):
@@ -200,6 +213,25 @@ def check_case(case, acc):
             if not ok:
                 acc.violation("keys:%s" % ("enum-vs-str"), "TransformKey/HomogeneousMatrix/TransformDict spelled (%r, %r) does not "
                               "behave like (%s, %s) %s" % (a, b, s, d, detail), dict(case, a=str(a), b=str(b)))
+    elif k == "task_lists":
+        members = [EvaluationTask[n] for n in case["tasks"]]
+        acc.exec()
+        got = _outcome(set_task_lists, [m.value for m in members])
+        acc.compared()
+        ok = got[0] == "ret" and len(got[1]) == len(members) and all(x is y for x, y in zip(got[1], members))
+        if not ok:
+            acc.violation("parse:EvaluationTask.set_task_lists:order", "set_task_lists(%s) returned %r: every entry must name its member, in input order" % ([m.value for m in members], got[1]), case)
+        acc.state(("task_lists", len(members), ok), nontrivial=len(set(case["tasks"])) > 1)
+    elif k == "frame_distinct":
+        a = FrameID[case["a"]]
+        for b in FrameID:
+            acc.exec()
+            same = a is b
+            eq = (a == b, b == a, a == b.value, TransformKey(a, FrameID.MAP) == TransformKey(b, FrameID.MAP), hash(a) == hash(b) if same else True)
+            acc.compared()
+            if same != eq[0] or same != eq[1] or same != eq[2] or same != eq[3] or not eq[4]:
+                acc.violation("frame-id:equality", "FrameID.%s vs FrameID.%s: ==, reversed ==, == value, TransformKey == give %s; distinct frames must be unequal, a frame equals itself" % (a.name, b.name, eq[:4]), case)
+            acc.state(("frame_distinct", same, eq[:4]), nontrivial=not same)
     elif k == "task_spelling":
         from perception_eval.common.label import LabelConverter
 
@@ -211,13 +243,16 @@ def check_case(case, acc):
         if a != b:
             acc.violation("task:from_task", "FrameID.from_task(%r)=%r but from_task(%s)=%r" % (m.value, b, m, a), case)
 
-        def conv(t):
-            c = LabelConverter(t, False, "autoware")
-            return (c.evaluation_task is m, [(li.name, li.label.value) for li in c.label_infos])
+        ca = cb = None
+        for prefix in ("autoware", "traffic_light"):
+            def conv(t, prefix=prefix):
+                c = LabelConverter(t, False, prefix)
+                return (c.evaluation_task is m, [(li.name, li.label.value) for li in c.label_infos])
 
-        ca, cb = _outcome(conv, m), _outcome(conv, m.value)
-        if ca != cb or (ca[0] == "ret" and not ca[1][0]):
-            acc.violation("task:LabelConverter", "LabelConverter(%r) differs from LabelConverter(%s)" % (m.value, m), case)
+            acc.exec(2)
+            ca, cb = _outcome(conv, m), _outcome(conv, m.value)
+            if ca != cb or (ca[0] == "ret" and not ca[1][0]):
+                acc.violation("task:LabelConverter:" + prefix, "LabelConverter(%r, ..., %r) differs from LabelConverter(%s, ...)" % (m.value, prefix, m), case)
         acc.state(("task_spelling", m.name, a[0], ca[0]), nontrivial=True)
         acc.outcome(("task", a[0]))
     if acc.cases % 97 == 1:
